@@ -92,7 +92,7 @@ def run_query(q, pid, tier):
             gb = 'unit.gb'
         if q.kind in ('dfcc', 'c'):
             cf = os.path.join(VERIF, q.cfile)
-            rc, so, se, _ = sh(['goto-cc'] + inc + defs + [cf, '-o', 'c.gb'], wd, 300)
+            rc, so, se, _ = sh(['goto-cc', '-I', os.path.join(VERIF, 'contracts')] + defs + [cf, '-o', 'c.gb'], wd, 300)
             if rc != 0:
                 raise Undecided(f"goto-cc failed on contract file {q.cfile}: {(se or so)[-600:]}")
             parts = ['c.gb'] if q.kind == 'c' else ['unit.gb', 'c.gb']
@@ -145,7 +145,7 @@ def run_query(q, pid, tier):
             ob = {'id': r.get('property', ''), 'desc': r.get('description', ''), 'status': r.get('status', ''),
                   'function': sl.get('function', ''), 'file': os.path.basename(sl.get('file', '') or ''), 'line': sl.get('line', '')}
             if ob['status'] != 'SUCCESS' and 'trace' in r:
-                ob['inputs'] = extract_inputs(r['trace'], q.entry)
+                ob['inputs'] = extract_inputs(r['trace'], q.entry, (q.replay or {}).get('target'))
                 ob['trace_tail'] = trace_tail(r['trace'])
             obs.append(ob)
         res['obligations'] = obs
@@ -176,39 +176,70 @@ def _val(v):
         return {m.get('name'): _val(m.get('value')) for m in v.get('members', [])}
     return None
 
-def extract_inputs(trace, entry):
-    """harness inputs = first assignment to each plain-named variable whose source function is the entry harness,
-    plus every global named vin_*; array element writes (a[3l]) are folded into lists"""
-    vals = {}
+def _parse_lhs(lhs):
+    """'st.w[0l].s.a[3l]' -> ['st','w',0,'s','a',3]; returns None for exotic forms"""
+    toks = []
+    i = 0
+    m = re.match(r'^[A-Za-z_][\w:]*', lhs)
+    if not m: return None
+    toks.append(m.group(0)); i = m.end()
+    while i < len(lhs):
+        if lhs[i] == '.':
+            m = re.match(r'\.([A-Za-z_][\w:]*)', lhs[i:])
+            if not m: return None
+            toks.append(m.group(1).split('::')[-1]); i += m.end()
+        elif lhs[i] == '[':
+            m = re.match(r'\[(\d+)[lLuU]*\]', lhs[i:])
+            if not m: return None
+            toks.append(int(m.group(1))); i += m.end()
+        else:
+            return None
+    return toks
+
+def _strip_names(v):
+    if isinstance(v, dict): return {k.split('::')[-1]: _strip_names(x) for k, x in v.items()}
+    if isinstance(v, list): return [_strip_names(x) for x in v]
+    return v
+
+def _store(tree, toks, v):
+    cur = tree
+    for j, t in enumerate(toks[:-1]):
+        nxt = toks[j + 1]
+        if isinstance(cur, dict):
+            if t not in cur or not isinstance(cur[t], (dict, list)): cur[t] = [] if isinstance(nxt, int) else {}
+            cur = cur[t]
+        elif isinstance(cur, list) and isinstance(t, int):
+            while len(cur) <= t: cur.append(None)
+            if not isinstance(cur[t], (dict, list)): cur[t] = [] if isinstance(nxt, int) else {}
+            cur = cur[t]
+        else:
+            return
+    t = toks[-1]
+    if isinstance(cur, dict): cur[t] = v
+    elif isinstance(cur, list) and isinstance(t, int):
+        while len(cur) <= t: cur.append(None)
+        cur[t] = v
+
+def extract_inputs(trace, entry, target=None):
+    """harness inputs = the memory of the entry harness's locals and of the ghost globals (g_*, vin_*, verif_*) as it
+    stands when control first enters the function under test (target; default: first function called that is not a
+    stub/spec helper is unknown, so: the LAST state before the failure if no target is given)."""
+    tree = {}
     for s in trace:
+        fn = s.get('sourceLocation', {}).get('function')
+        if target and s.get('stepType') == 'function-call' and (s.get('function', {}).get('displayName', '') or '').startswith(target):
+            break
         if s.get('stepType') != 'assignment': continue
         lhs = s.get('lhs', '')
-        fn = s.get('sourceLocation', {}).get('function')
-        base = re.match(r'^([A-Za-z_]\w*)', lhs)
-        if not base: continue
-        b = base.group(1)
-        if b.startswith('__') or '$' in lhs: continue
-        if not (fn == entry or b.startswith('vin_')): continue
+        if lhs.startswith('__') or '$' in lhs or '#' in lhs: continue
+        toks = _parse_lhs(lhs)
+        if not toks: continue
+        b = toks[0]
+        if not (fn == entry or b.startswith(('g_', 'vin_', 'verif_expect'))): continue
         v = _val(s.get('value'))
         if v is None: continue
-        m = re.match(r'^(\w+)\[(\d+)[lLuU]*\]$', lhs)
-        if m:
-            arr = vals.setdefault(m.group(1), {})
-            if isinstance(arr, dict) and m.group(2) not in arr: arr[m.group(2)] = v
-            continue
-        if re.match(r'^\w+$', lhs):
-            if lhs not in vals or (isinstance(vals[lhs], list) and all(x is None for x in vals[lhs])):
-                vals[lhs] = v
-            elif b.startswith('vin_'):
-                vals[lhs] = v   # globals: last write wins
-    out = {}
-    for k, v in vals.items():
-        if isinstance(v, dict) and all(kk.isdigit() for kk in v):
-            n = max(int(kk) for kk in v) + 1
-            out[k] = [v.get(str(i), 0) for i in range(n)]
-        else:
-            out[k] = v
-    return out
+        _store(tree, toks, _strip_names(v))
+    return tree
 
 def trace_tail(trace, n=25):
     lines = []
@@ -272,6 +303,8 @@ def run_check(pid, queries, tier, meta):
     t0 = time.time()
     seed = int(os.environ.get('VERIF_SEED', '0') or 0)
     qs = [q for q in queries if tier == 'thorough' or q.tier == 'quick']
+    if os.environ.get('VERIF_ONLY'):
+        qs = [q for q in qs if re.search(os.environ['VERIF_ONLY'], q.name)]
     if seed:
         import random
         random.Random(seed).shuffle(qs)
